@@ -314,7 +314,7 @@ fn op_strategy(tier: Tier) -> BoxedStrategy<Op> {
     .boxed()
 }
 
-fn strategy(tier: Tier) -> BoxedStrategy<Case> {
+pub fn strategy(tier: Tier) -> BoxedStrategy<Case> {
     let max_ops = tier.pick(30usize, 80usize);
     (root_strategy(), prop::collection::vec(op_strategy(tier), 0..=max_ops)).prop_map(|(root, ops)| Case { root, ops }).boxed()
 }
